@@ -96,6 +96,8 @@ ExpectedRows(files, exprs, proj) ==
 \*   vk = "scalar" (xs = <<x>>, a non-iterable Python scalar), "strscalar" (xs = <<x>>, a one-character str:
 \*        what a scalar is for a string column - Python can iterate it), "none" (Python None),
 \*        "seq" (list/tuple of scalars/None, xs),
+\*        "mixed" (a list whose members have different types, e.g. [1, "x"]: no column can hold both;
+\*        used as operand of in / not_in only),
 \*        "hetero" (a tuple/list mixing an operator string with values, e.g. (">", 5, 6) or [">", 5]),
 \*        "homog"  (a tuple/list of like-typed members used where a scalar belongs: (">",), (), (1,2,3), [1,2])
 \*   op = operator spelling (a string, or the printed form of a non-string when opIsStr = FALSE)
@@ -162,7 +164,7 @@ CheckValueRaises(o, vk) ==
   IF o \in SetOps                                                   \* 108
   THEN vk = "strscalar"                                             \* 111-115: a str (bytes) operand
        \/ vk \in {"scalar", "none"}                                 \* 116-121: iter(value) raises TypeError
-  ELSE vk \in {"seq", "hetero", "homog"}                            \* 122-125: a container where a single value belongs
+  ELSE vk \in {"seq", "mixed", "hetero", "homog"}                   \* 122-125: a container where a single value belongs
 
 \* ValidateFirst = FALSE removes line 75 and the branch 86-96 (the parser before e9269c1).
 ParseCond(c) ==
@@ -194,7 +196,9 @@ ParseCond(c) ==
 \* become the value set (for a one-character str: the singleton of that very value);
 \* filters.py:195-200: `field == value` makes pa.scalar(value): a tuple/list mixing str and int cannot be typed
 \* (ArrowTypeError, platform).
-BuildRaises(e) == (e.op \in SetOps /\ e.vk \in {"scalar", "none"}) \/ e.vk = "hetero"
+\* Reachable with the strict parser too: filters.py:183/192 pa.array(values) of a value list with members of
+\* different types raises (ArrowInvalid / ArrowTypeError): a malformed filter that only the BUILD stage rejects.
+BuildRaises(e) == (e.op \in SetOps /\ e.vk \in {"scalar", "none", "mixed"}) \/ e.vk = "hetero"
 \* Evaluating the built expression: there is no compare kernel for (column type, list<...>) (platform).
 ExecRaises(e)  == e.op \in CmpOps /\ e.vk \in {"seq", "homog"}
 
@@ -214,7 +218,7 @@ Understood(c) ==
 \* Defect D3 (part of ~ValidateFirst, i.e. before e9269c1): a str operand of in / not_in was not rejected but iterated.
 StrAsSet(c) == c.k = "pair" /\ c.opIsStr /\ RefOpOf(Lower(c.op)) \in SetOps /\ c.vk = "strscalar"
 \* THEOREM (per condition shape): the code accepts exactly the well-formed conditions, with the
-\* reference's meaning; every malformed condition raises (now: in the parser)
+\* reference's meaning; every malformed condition raises (now: in the parser, a mixed-type value list at build)
 \* (before e9269c1: at some stage when evaluated, except the str operand of a set operator, which was reinterpreted).
 ParserConformsAt(c) == Understood(c) = RefCond(c) \/ (~ValidateFirst /\ StrAsSet(c))
 
